@@ -39,6 +39,32 @@ CLAIMED = {
             "Default flags in refdict are frozen from the pinned tree (the published list has no flags); any "
             "exception counts as rejection; UTF-8 validity and negative Unsigned64 are not judged.",
             "DESIGN.md 4/C10"),
+    "C09": ("ENUM", "exploration",
+            "bounded-exhaustive enumeration of constructor-argument subsets against a hand-written command table",
+            "All 50 typed classes (discovered by introspection) x subsets of omittable arguments (sizes 0,1,2,n "
+            "quick; every subset for <= 12 arguments thorough) x value variants x extra keyword AVPs x omission "
+            "of each mandatory argument; header, flags, AVP order/class/value, mandatory counts, Message Length, "
+            "reference and library round trip, request/answer pairing.",
+            "Trusts vk/ref/refcmds.json (written from the RFC/TS texts) and refdict; argument independence "
+            "bounds the subset sizes for classes with > 12 optionals; defaults are checked structurally only.",
+            "DESIGN.md 4/C09"),
+    "C19": ("ENUM", "exploration",
+            "bounded-exhaustive enumeration of configuration dictionaries and YAML specs",
+            "Complete pairwise (thorough: 3-wise) product of valid/invalid value alphabets over the 12 keys, all "
+            "132 ordered first/second key choices, an unknown key at every position, two entry points; all YAML "
+            "spec lists of length <= 2/3 over a 6-entry alphabet: accepted => every Connection field equals the "
+            "configured value and the caller's dict is untouched, else InvalidConfigKey/InvalidConfigValue.",
+            "Booleans, non-string IP values and incomplete dictionaries are outside the statement; a falsy "
+            "TRANSPORT_TYPE becoming TCP in Diameter(config) is the documented default.",
+            "DESIGN.md 4/C19"),
+    "C20": ("ENUM", "exploration",
+            "bounded-exhaustive enumeration of (word, bit), address literals and instants against integer arithmetic",
+            "Bit accessors over boundary words (thorough: all words with <= 2 bits set/clear and all 2^16 low and "
+            "high half-words) x indices -2..34; IPv4 literals as a complete octet-position product, IPv6 literals "
+            "by every compression position/length; one instant per day 1900..2036 plus boundaries.",
+            "Trusts the hand-written literal packer and integer arithmetic; reported address text is compared by "
+            "re-packing, so any textual form of the same address is accepted.",
+            "DESIGN.md 4/C20"),
     "C17": ("ENUM", "exploration",
             "bounded-exhaustive enumeration of the real predicates against n // 1000",
             "Every code 0..65535 plus 32-bit boundaries and all library constants (thorough: plus a "
